@@ -38,6 +38,30 @@ class Ctx:
         self.no_inline = set(no_inline)
         self.counter = 0
         self.warnings = []
+        self.facts = {}                   # scenario facts: term -> constant (e.g. ('ndim', sigs) -> 2)
+
+    # a specification run may call functions of the analysed package: they resolve through ``fallback`` and are
+    # never inlined (uninterpreted, canonical bound-parameter form)
+    fallback = None
+
+    def lookup_func(self, qual):
+        if qual in self.model.funcs:
+            return self.model.funcs[qual]
+        return self.fallback.funcs[qual]
+
+    def is_foreign(self, qual):
+        return qual not in self.model.funcs
+
+    def foreign(self, dotted):
+        fb = self.fallback
+        if fb is None or not dotted.startswith(fb.pkg + '.'):
+            return None
+        mod, name = dotted.rsplit('.', 1)
+        if mod in fb.mods:
+            r = fb.resolve(mod, name)
+            if isinstance(r, str) and r in fb.funcs:
+                return r
+        return None
 
     def fresh(self, prefix='o'):
         self.counter += 1
@@ -617,9 +641,9 @@ class Frame:
         while isinstance(root, ast.Subscript):
             path.append(root.slice)
             root = root.value
-        if isinstance(root, ast.Name) and root.id in self.env:
+        if self.is_place(root) and (not isinstance(root, ast.Name) or root.id in self.env):
             keys = tuple(self.ex(p) for p in reversed(path)) + (k,)
-            self.update_name(root.id, _arr_store(self.env[root.id], ('path', keys), v, g))
+            self.place_set(root, _arr_store(self.place_get(root), ('path', keys), v, g))
 
     # ------------------------------------------------------------------ expressions
     def ex(self, n):
@@ -770,6 +794,10 @@ class Frame:
                 return C(r if op == 'In' else not r)
             if b[0] == 'set':
                 b = ('tuple', b[1])
+        if op in ('Is', 'IsNot', 'Eq', 'NotEq') and (a == NONE or b == NONE):
+            other = b if a == NONE else a
+            if (other[0] == 'param' and self.ctx.kinds.get(other[1]) not in (None, 'none')) or other[0] in ('atom', 'col', 'obj', 'nd'):
+                return C(op in ('IsNot', 'NotEq'))      # typed scenario value: never None
         if op in ('Eq', 'NotEq') and a[0] == b[0] == 'tuple' and len(a[1]) == len(b[1]) and all(T.isconst(x) for x in a[1] + b[1]):
             r = a == b
             return C(r if op == 'Eq' else not r)
@@ -829,7 +857,7 @@ class Frame:
         if a in ('iloc', 'loc'):
             return ('indexer', a, b)
         if a == 'ndim':
-            return ('ndim', b)
+            return self.ctx.facts.get(('ndim', b), ('ndim', b))
         if a == 'shape':
             return T.call('shape', (b,))
         if a == 'T':
